@@ -270,7 +270,7 @@ impl Prop for C03 {
     fn plan(&self, tier: Tier) -> Plan {
         match tier {
             Tier::Quick => Plan { runs: 12000, time_box_s: None, isolation: Isolation::Threads },
-            Tier::Thorough => Plan { runs: 600_000, time_box_s: Some(480), isolation: Isolation::Threads },
+            Tier::Thorough => Plan { runs: 5_000_000, time_box_s: Some(480), isolation: Isolation::Threads },
         }
     }
     fn generate(&self, rc: &RunCtx) -> Case {
